@@ -14,7 +14,8 @@ Inductive sty :=
 | SKDbl (bits : Z)                    (* a double literal *)
 | SKStr (s : bytes)                   (* a string literal *)
 | SList (elem : sty)                  (* []string, []int fields *)
-| SIfaces.                            (* result of filter / map: only len() applies *)
+| SIfaces                             (* result of filter / map: only len() applies *)
+| SMapSI.                             (* map[string]<int> fields: only size() applies (iteration and membership are open findings) *)
 
 Definition sty_of_fty (t : fty) : option sty :=
   match t with
@@ -24,7 +25,7 @@ Definition sty_of_fty (t : fty) : option sty :=
   | TBool => Some SBool
   | TStrs => Some (SList SStr)
   | TInts k => Some (SList (SInt k))
-  | TMapSI _ => None
+  | TMapSI _ => Some SMapSI
   end.
 
 Definition is64 (k : ikind) : bool :=
@@ -185,7 +186,7 @@ Fixpoint cty (G : tenv) (e : cexpr) : option sty :=
       | FNeg, Some (SInt k) => if is64 k && k_signed k then Some (SInt k) else None
       | FNeg, Some SF64 => Some SF64
       | FNeg, Some (SKInt false z) => if in_i64 (- z) then Some (SKInt false (- z)) else None
-      | FSize, Some (SList _) | FSize, Some SIfaces => Some (SInt IInt)
+      | FSize, Some (SList _) | FSize, Some SIfaces | FSize, Some SMapSI => Some (SInt IInt)
       | FInt, Some t => if is_strlike t then Some (SInt IInt) else None
       | FString, Some (SInt k) => if not_dur k then Some SStr else None
       | FString, Some SF64 => Some SStr
